@@ -35,7 +35,7 @@ CLAIMED = {
    ref="DESIGN.md section 0.7, C02"),
  "C03": dict(
    cat="model_checking", tech="enum-level symbolic execution of rustc MIR + SMT (z3): rule bodies of the type checker with the symbol table's queries as uninterpreted calls and names as symbolic strings",
-   text="Solver-based, EIGHT rule bodies of the property: (e) names and returns (check_ident, check_return): a name found by no scope is reported once as unknown and typed Unknown, a found "
+   text="Solver-based, NINE rule bodies / mechanisms of the property: (e) names and returns (check_ident, check_return): a name found by no scope is reported once as unknown and typed Unknown, a found "
         "variable gets its declared type; a returned value (Unit for a bare return) incompatible with the declared return type is reported once; (a) `name = value` (check_assignment): which scopes are searched for an existing binding, immutable existing variable -> mutation "
         "error, mutable -> none, otherwise exactly one new symbol; (b) `expr?` (check_try): non-Result operand reported and typed Unknown, incompatible error types reported, compatible "
         "ones not; (c) match exhaustiveness over enums (check_match_exhaustiveness): an error iff no wildcard / binding arm and some variant is named by no constructor pattern, for 0..=3 "
@@ -43,7 +43,9 @@ CLAIMED = {
         "missing-required and ill-typed field, for 0..=2 (thorough 3) arguments x declared fields with symbolic names. Every answer of lookup / lookup_local / get / types_compatible is arbitrary. "
         "(f) if / elif / else (check_if_stmt, check_if_expr): every condition is checked and must be bool and every statement of every body is checked in its own scope, elif lists and "
         "bodies of 0..=2 (thorough 3); (g) generic user types are nominal in their base name (types_compatible on Generic x Generic: accepted only if the names are equal); (h) the "
-        "declared error type `?` is checked against is written only at function / method entry and exit (frame condition over the MIR of every TypeChecker method) and cleared on every path of check_function.",
+        "declared error type `?` is checked against is written only at function / method entry and exit (frame condition over the MIR of every TypeChecker method) and cleared on every path of check_function; "
+        "(i) traversal (X-check_visits_all): in every arm of check_statement / check_expr that the model executes (34 of 41), on every path that reports no error, every sub-expression and "
+        "statement of the node is handed to check_expr / check_statement (children computed from the type definitions) - so no part of a construct escapes the rules.",
    note="Kernel-only: unknown names, call / return / argument type rules, trait adoption (`@requires`, required methods), the symbol table's own scope walking, and the LOCATION of the "
         "diagnostics are NOT covered; constructor patterns written with a `::` path and Result / Option subjects are outside (c). One known finding: the assignment rule searches the "
         "current scope only (known_findings.json) - re-assigning an immutable outer binding from a nested block passes `incan --check`; any other deviation is still reported.",
